@@ -203,3 +203,7 @@ package expr
 //@   loop 1 modifies elems(*ErrorExpr)
 //@   loop 4 invariant scan: !noreq && (forall i int, j int :: 0 <= i && i <= rangeindex#4 && 0 <= j && j < len(own[i].Schemes) ==> own[i].Schemes[j].Kind != NoKind)
 //@   loop 5 invariant scan.schemes: !noreq && 0 <= rangeindex#4 && rangeindex#4 < len(own) && r == own[rangeindex#4] && (forall j int :: 0 <= j && j <= rangeindex#5 ==> r.Schemes[j].Kind != NoKind) && (forall i int, j int :: 0 <= i && i < rangeindex#4 && 0 <= j && j < len(own[i].Schemes) ==> own[i].Schemes[j].Kind != NoKind)
+
+//@ func (*AttributeExpr).Find
+//@   trusted
+//@   modifies nothing
